@@ -3935,11 +3935,17 @@ func scanComplementRule(c *Ctx, r *Result, rule string, floor int) {
 					continue
 				}
 				fc, isFC := fi.Cond.(*ssa.BinOp)
-				if !isFC || stripConv(fc.X) != ssa.Value(phi) || !errorOnlyBlock(b.Succs[0], 0) {
+				if !isFC || !errorOnlyBlock(b.Succs[0], 0) {
 					continue
 				}
+				// cur + c0 OP Y is cur OP Y - c0
+				off := fb.lin(fc.X).add(fb.lin(phi), -1)
+				if !off.isConst() || (off.C != 0 && fc.Op != token.GEQ) {
+					continue // cur+k > L in front of a k-byte read is a different test
+				}
 				d := fb.lin(fc.Y).add(fb.lin(lc.Y), -1)
-				if !sameByName(fb, fb.lin(fc.Y).add(linConst(d.C), -1), fb.lin(lc.Y)) {
+				d.C -= off.C
+				if !sameByName(fb, fb.lin(fc.Y).add(linConst(d.C+off.C), -1), fb.lin(lc.Y)) {
 					continue
 				}
 				var want int64
@@ -4042,6 +4048,10 @@ func init() {
 	// C03 / C06: scan failure test
 	txt = "a scan that stopped inside the buffer found its terminator: after `for cur < L && x[cur] != t { cur++ }` the test that reports 'not terminated' is cur >= L with the same L (with L-1 a name whose terminator is the last byte of the name heap is refused: a group whose names fill the heap exactly can no longer be opened)"
 	shareRule([]string{"C03", "C06", "C11"}, txt, "C03", func(c *Ctx, r *Result, id string) { scanComplementRule(c, r, id, 2) })
+	defer func() {
+		// registered last so that earlier ids stay as they were
+		shareRule([]string{"C04"}, txt, "C03", func(c *Ctx, r *Result, id string) { scanComplementRule(c, r, id, 2) })
+	}()
 
 	// C12 / C11: copy into an empty window
 	txt = "a copy has somewhere to go: where copy(dst[k:], src) writes into a slice made in the same function, the slice is longer than k (make([]byte, 8, 8+n) followed by copy(buf[8:], props) copies nothing: every variable-length datatype message loses its base type)"
